@@ -7,6 +7,7 @@ package flags
 import (
 	"fmt"
 	"reflect"
+	"sort"
 	"strconv"
 	"strings"
 	"time"
@@ -132,7 +133,13 @@ func convertToString(val reflect.Value, options multiTag) (string, error) {
 	case reflect.Map:
 		ret := "{"
 
-		for i, key := range val.MapKeys() {
+		// Render in a stable order: map iteration order is random
+		keys := val.MapKeys()
+		sort.Slice(keys, func(i, j int) bool {
+			return fmt.Sprint(keys[i]) < fmt.Sprint(keys[j])
+		})
+
+		for i, key := range keys {
 			if i != 0 {
 				ret += ", "
 			}
